@@ -536,4 +536,12 @@ def rule_nofire(ctx: Ctx):
     rep.control("C05.nofire", len(scan_fire_and_forget(fp)) >= 2, "fixtures/c05_nofire/badpkg uses ensure_future and create_task")
 
 
-RULES = [rule_sibling, rule_await, rule_flag, rule_facade, rule_start, rule_nofire]
+def rule_restore_starts(ctx: Ctx):
+    """C05.start: an async machine is activated lazily, so a clone of a not-yet-activated one must queue the initial
+    activation again (the restore performs the constructor's steps, including start())."""
+    from . import c17
+
+    c17.rule_steps(ctx, rule="C05.start")
+
+
+RULES = [rule_sibling, rule_await, rule_flag, rule_facade, rule_start, rule_nofire, rule_restore_starts]
